@@ -9,7 +9,7 @@ from .common import C, txt
 MOVES = ["w", "e", "b", "l", "h", "$", "0", "W", "E", "fa", "tb", "j", "k", "gg", "G", "^", "ge", "2w", "3l"]
 EDITS = ["x", "dw", "iX<esc>", "a-<esc>", "rZ", "~", "D", "yiw", "P", "p", "dd", "cwnew<esc>", "ohi<esc>", "J", "u", "vey", "guw", "gUiw"]
 CUTS = ["e", "w", "$", "iw", "vee", "b", "3l", "E", "fa", "vi)", "va)", "0", "vaw", "f\\\\", "t\\\\"]
-PATS = ["a", "o", "foo", "b.r", "\\d", "x|y", "e$", "^f", "z"]
+PATS = ["a", "o", "foo", "b.r", "\\d", "x|y", "e$", "^f", "z", "qqq", "^$"]
 TEXTS = [
     "foo bar baz\nalpha beta gamma\nfoo2 bar2\n",
     "a b c d e f\ng h i j k l\n",
@@ -24,7 +24,14 @@ TEXTS = [
 ]
 
 
+# key strings that end in the middle of a command or in an open mode: whatever runs them (top level, -r body, -g scope,
+# vic block) has to leave the same nothing behind for the next command
+OPEN = ["2", "d", "f", '"a', "ve", "vl", "V", "ix", "3", "g", "c", "2d", "vee", "A-", "Rz"]
+
+
 def gen_cmd_str(rng, kind):
+    if rng.random() < 0.1:
+        return rng.choice(OPEN)
     if kind == "cut":
         return rng.choice(CUTS if rng.random() < 0.8 else MOVES + EDITS)
     r = rng.random()
